@@ -11,8 +11,8 @@ VERIF = os.path.dirname(HERE)
 sys.path.insert(0, VERIF)
 
 # environment pinning (the ./check launcher does this; re-exec if called directly)
-if os.environ.get('PYTHONHASHSEED') != '0':
-    os.environ['PYTHONHASHSEED'] = '0'
+if os.environ.get('PYTHONHASHSEED') is None or os.environ.get('PYTHONHASHSEED') == 'random':
+    os.environ['PYTHONHASHSEED'] = os.environ.get('KSIM_HASHSEED', '0')
     for k in ('OMP_NUM_THREADS', 'OPENBLAS_NUM_THREADS', 'MKL_NUM_THREADS', 'NUMEXPR_NUM_THREADS'):
         os.environ[k] = '1'
     os.environ['MPLBACKEND'] = 'Agg'
@@ -126,9 +126,16 @@ def main():
             viol_by_check.setdefault(v['check'], []).append((i, v))
 
     if args.digests:
+        import hashlib
+
+        def dg(res):
+            # event-log digest where the world records one, else a digest of everything the run reported
+            base = res.get('digest', '')
+            cn = {k: (float(v).hex() if isinstance(v, float) else v) for k, v in sorted(res.get('counters', {}).items()) if not k.startswith('inconclusive')}
+            extra = json.dumps([res.get('sig', ''), cn, [(x['check'], x['detail']) for x in res.get('failures', [])]], sort_keys=True, default=str)
+            return base + ':' + hashlib.sha256(extra.encode()).hexdigest()[:12]
         with open(args.digests, 'w') as f:
-            json.dump({str(i): [results[i].get('digest', ''), results[i]['verdict'],
-                                sorted(x['check'] for x in results[i].get('failures', []))] for i, _ in recs}, f, indent=0)
+            json.dump({str(i): [dg(results[i]), results[i]['verdict'], sorted(x['check'] for x in results[i].get('failures', []))] for i, _ in recs}, f, indent=0)
 
     if args.list:
         tab = {}
